@@ -36,6 +36,11 @@ func (p *ConsensusParameters) SanityCheck() error {
 	if unsafeFlags && !flags.DebugDontBlameOasis() {
 		return fmt.Errorf("one or more unsafe debug flags set")
 	}
+	// An election never elects more than the maximum number of validators, so a higher minimum
+	// could never be met and every subsequent election would fail.
+	if p.MaxValidators > 0 && p.MinValidators > p.MaxValidators {
+		return fmt.Errorf("minimum number of validators (%d) exceeds the maximum (%d)", p.MinValidators, p.MaxValidators)
+	}
 	return nil
 }
 
@@ -45,6 +50,13 @@ func (c *ConsensusParameterChanges) SanityCheck() error {
 		c.MaxValidators == nil &&
 		c.VotingPowerDistribution == nil {
 		return fmt.Errorf("consensus parameter changes should not be empty")
+	}
+	// Same requirements as at genesis.
+	if c.MinValidators != nil && *c.MinValidators <= 0 {
+		return fmt.Errorf("minimum number of validators must be positive")
+	}
+	if c.MaxValidators != nil && *c.MaxValidators <= 0 {
+		return fmt.Errorf("maximum number of validators must be positive")
 	}
 	return nil
 }
